@@ -178,6 +178,8 @@ type propInfo struct {
 	Rule        string
 	Trusted     []string
 	Assumptions []string
+	// Exhaustive: the run enumerated a finite input space completely.
+	Exhaustive bool
 }
 
 // Finish evaluates floors and known findings, prints the report lines, writes
@@ -284,7 +286,7 @@ func (r *Recorder) Finish(w *World, info propInfo, tier string, seed int, outDir
 		"packages_loaded":     len(w.Pkgs),
 		"whole_program":       w.Whole,
 		"notes":               r.Notes,
-		"exhaustive":          false,
+		"exhaustive":          info.Exhaustive && len(bad) == 0,
 	}
 	if info.Assumptions == nil {
 		info.Assumptions = []string{}
